@@ -321,6 +321,8 @@ def run_world(spec, argv, child_hook=None, warnings=None, probe=True,
     saved_trace = (worldrt.TRACE, worldrt.VPID, worldrt.PROBE)
     worldrt.TRACE = trace = []
     worldrt.VPID = 0
+    saved_exec = worldrt.EXEC
+    worldrt.EXEC = {}
     global CUR_OUT, CUR_ERR
     saved_cur = (CUR_OUT, CUR_ERR)
     CUR_OUT, CUR_ERR = out, err
@@ -381,6 +383,7 @@ def run_world(spec, argv, child_hook=None, warnings=None, probe=True,
         # the Logging feature adds a NullHandler per run and never removes it
         root_logger.handlers[:] = saved_handlers
         worldrt.TRACE, worldrt.VPID, worldrt.PROBE = saved_trace
+        worldrt.EXEC = saved_exec
         worldrt.FD2 = saved_fd2
         worldrt.uninstall(prev_mod)
         CUR_OUT, CUR_ERR = saved_cur
@@ -506,6 +509,8 @@ def run_plain(argv, roots=(), want_state=False):
     saved_trace = (worldrt.TRACE, worldrt.VPID, worldrt.PROBE)
     worldrt.TRACE = trace = []
     worldrt.VPID = 0
+    saved_exec = worldrt.EXEC
+    worldrt.EXEC = {}
     worldrt.PROBE = None
     sys.stdout, sys.stderr = out, err
     runner = None
@@ -540,6 +545,7 @@ def run_plain(argv, roots=(), want_state=False):
                     del sys.path_importer_cache[k]
         root_logger.handlers[:] = saved_handlers
         worldrt.TRACE, worldrt.VPID, worldrt.PROBE = saved_trace
+        worldrt.EXEC = saved_exec
         CUR_OUT, CUR_ERR = saved_cur
     res.out = out.value()
     res.err = err.value()
